@@ -1670,6 +1670,182 @@ def ops_match(cirq, a, b, q):
     return True
 
 
+# ---- composition of resolvers -------------------------------------------------------------------------
+def reintroduces(r1, r2):
+    """True when a value of r2 mentions a symbol that r1 binds (to something else than itself)."""
+    sd1 = sym_dict(r1)
+    bound1 = {k.name for k, v in sd1.items() if v != k}
+    return any(s.name in bound1 for v in sym_dict(r2).values() for s in v.free_symbols)
+
+
+def compose_stream(ctx, cirq, n):
+    """cirq.resolve_parameters(r1, r2) (a ParamResolver resolved by a ParamResolver): the composed dictionary against the model
+    of _resolve_parameters_, and the law resolve(resolve(x, r1), r2) = resolve(x, r1 then r2) on the real code."""
+    import sympy
+    rng = ctx.rng
+    a, b = sympy.Symbol('a'), sympy.Symbol('b')
+    corner = [([('a', 1)], [('b', a)]), ([('a', b)], [('b', sympy.Symbol('c') + sympy.Symbol('d'))]), ([('a', b + 1)], [('b', 2 * a)]),
+              ([], [('b', a)]), ([('a', 1)], []), ([('a', b)], [('a', 3), ('b', a)]), ([('a', 1.0)], [('a', 2.0)])]
+    cases, terms = [], []
+    for i in range(n):
+        if i < len(corner):
+            r1, r2 = corner[i]
+        else:
+            r1, c1 = gen_resolver(rng)
+            r2, c2 = gen_resolver(rng)
+            r1 = [kv for kv in r1 if rng.random() < 0.6]
+            if rng.random() < 0.75:                       # the usual order of use: r2 does not bring back what r1 resolved
+                dom1 = {k for k, _ in r1}
+                r2 = [(k, v) for k, v in r2 if not (isinstance(v, sympy.Basic) and {s.name for s in v.free_symbols} & dom1) and not (isinstance(v, str) and v in dom1)]
+        try:
+            t1, t2 = resolver_term(r1), resolver_term(r2)
+        except Unsupported:
+            continue
+        R1, R2 = make_resolver(cirq, r1), make_resolver(cirq, r2)
+        try:
+            comp = with_timeout(20, lambda: cirq.resolve_parameters(R1, R2))
+            got = [((k.name if isinstance(k, sympy.Symbol) else k), to_tree(v)) for k, v in comp.param_dict.items()]
+            gterm = '(Some ' + llit(got, lambda kv: f'({slit(kv[0])}, {expr_term(kv[1])})') + ')'
+        except RecursionError:
+            comp, got, gterm = None, None, 'None'
+        except Unsupported:
+            continue
+        except Exception as ex:
+            comp, got, gterm = None, ('error', f'{type(ex).__name__}: {ex}'[:200]), '(Some [("!error"%string, Num 0)])'
+        envs = gen_envs(rng)
+        cases.append((r1, r2, comp, got, envs))
+        terms.append(f'({qlit(REL_TOL)}, {llit(envs, env_term)}, {t1}, {t2}, {gterm})')
+        ctx.count('compose', [t1, t2], bool(r1) and bool(r2), sample=dict(r1=str(dict(r1)), r2=str(dict(r2)), composed=repr(comp)))
+        # the law, on the real code, for a few expressions
+        xs = [sympy.Symbol(s) for s in GEN_SYMS[:3]] + [gen_expr(rng, 2, GEN_SYMS, allow_fn=False)]
+        for x in xs:
+            if not isinstance(x, sympy.Basic) or x.is_Number:
+                continue
+            try:
+                seq = with_timeout(20, lambda: make_resolver(cirq, r2).value_of(make_resolver(cirq, r1).value_of(x)))
+            except Exception:
+                continue          # sequential resolution itself fails (cyclic resolver or a value_of finding): the law says nothing
+            try:
+                one = None if comp is None else comp.value_of(x)
+                ok = one is not None and values_agree(one, seq, envs) and {s.name for s in sympy.sympify(one).free_symbols} == {s.name for s in sympy.sympify(seq).free_symbols}
+                shown = repr(one) if comp is not None else 'RecursionError while composing'
+            except Exception as ex:
+                ok, shown = False, f'{type(ex).__name__}'
+            if not ok:
+                kind = 'reintroduced-symbol' if reintroduces(r1, r2) else 'law'
+                ctx.disagree('differential:compose', f'{dict(r1)} then {dict(r2)} on {x}', f'compose:{kind}',
+                             f'resolving {x} with {dict(r1)!r} and then with {dict(r2)!r} gives {seq!r}; with cirq.resolve_parameters(r1, r2) it gives {shown}',
+                             dict(kind='compose', r1=[[k, repr_value(v)] for k, v in r1], r2=[[k, repr_value(v)] for k, v in r2], expr=sympy_srepr(x)))
+                break
+    header = ('From Coq Require Import String ZArith QArith List Bool.\nFrom VF Require Import Base.Harness Codec.Resolver Codec.ResolverHarness.\n'
+              'Import ListNotations.\nLocal Open Scope nat_scope.\n')
+    text = header + ('Definition cases : list (Q * list (list (string * Q)) * resolver * resolver * option (list (string * expr))) := [\n'
+                     + ';\n'.join(terms) + '].\n')
+    text += ('Eval vm_compute in failing (fun c => match c with (tol, envs, r1, r2, got) => Nat.eqb (check_compose tol envs r1 r2 got) 0 end) cases.\n')
+    for idx in coq.parse_nat_list(coq.parse_evals(coq.coq_eval(f'c10_compose_{ctx.seed}', text))[0]):
+        r1, r2, comp, got, envs = cases[idx]
+        # a composed dictionary that differs from the model's: it only matters if the law fails, which was checked above for four
+        # expressions; check every bound symbol here
+        explained = False
+        for k in {k for k, _ in r1} | {k for k, _ in r2}:
+            x = sympy.Symbol(k)
+            try:
+                seq = make_resolver(cirq, r2).value_of(make_resolver(cirq, r1).value_of(x))
+            except Exception:
+                explained = True            # sequential resolution fails: cyclic or a value_of finding, reported by its own stream
+                continue
+            try:
+                one = comp.value_of(x) if comp is not None else None
+                ok = one is not None and values_agree(one, seq, envs)
+            except Exception:
+                ok = False
+            if not ok:
+                kind = 'reintroduced-symbol' if reintroduces(r1, r2) else 'law'
+                r = ctx.violation(f'compose:{kind}', f'resolving {x} with {dict(r1)!r} and then with {dict(r2)!r} gives {seq!r}; the composed resolver is {comp!r}',
+                                  dict(kind='compose', r1=[[k, repr_value(v)] for k, v in r1], r2=[[k, repr_value(v)] for k, v in r2], expr=sympy_srepr(x)))
+                explained = explained or r == 'known'
+                if r != 'known':
+                    ctx.mark_broken('correspondence:compose', f'{dict(r1)} then {dict(r2)}: composed {got}')
+                break
+        else:
+            if not explained:
+                ctx.mark_broken('correspondence:compose', f'model and implementation differ on the composition of {dict(r1)} and {dict(r2)}: implementation {got}')
+
+
+# ---- flatten on tuples of expressions, against the model (names included) ---------------------------------
+def flatten_model_stream(ctx, cirq, n):
+    import sympy
+    rng = ctx.rng
+    a, b = sympy.Symbol('a'), sympy.Symbol('b')
+    corner = [(a + 1, sympy.Symbol('<a + 1>')), (sympy.Symbol('<a + 1>'), a + 1, a + 1), (a + 1, sympy.Symbol('<a + 1>'), sympy.Symbol('<a + 1>_1'), 2 * a),
+              (a, a, 2.0, b * 2, a), (sympy.Symbol('<2*b>_1'), sympy.Symbol('<2*b>'), b * 2)]
+    rows, terms = [], []
+    for i in range(n):
+        if i < len(corner):
+            tup = corner[i]
+        else:
+            pool = [gen_expr(rng, rng.choice([0, 1, 2]), GEN_SYMS[:3]) for _ in range(3)]
+            tup = []
+            for _ in range(rng.choice([2, 3, 4, 5, 6])):
+                r = rng.random()
+                if r < 0.5:
+                    tup.append(rng.choice(pool))
+                elif r < 0.65:
+                    e = rng.choice(pool)
+                    tup.append(sympy.Symbol('<%s>' % e if rng.random() < 0.7 else '<%s>_1' % e))      # a symbol that collides with a generated name
+                elif r < 0.8:
+                    tup.append(float(dyadic(rng)))
+                else:
+                    tup.append(gen_expr(rng, 2, GEN_SYMS[:3]))
+            tup = tuple(tup)
+        try:
+            flat, em = cirq.flatten(tup)
+            trees = [to_tree(x) for x in tup]
+            ftrees = [to_tree(x) for x in flat]
+            emap = [(to_tree(k), v.name) for k, v in em.items()]
+        except Unsupported:
+            continue
+        except Exception as ex:
+            ctx.violation('flatten:tuple:raises', f'cirq.flatten({tup!r}) raised {type(ex).__name__}: {ex}', dict(kind='flatten_tuple', exprs=[sympy_srepr(x) for x in tup]))
+            continue
+        names = {}
+        for x in tup:
+            if isinstance(x, sympy.Basic):
+                names[expr_term(to_tree(x))] = x.name if isinstance(x, sympy.Symbol) else f'<{x!s}>'
+        tbl = llit(sorted(names.items()), lambda kv: f'({kv[0]}, {slit(kv[1])})')
+        rows.append((tup, flat, em))
+        terms.append(f'({tbl}, {llit(trees, expr_term)}, ({llit(ftrees, expr_term)}, {llit(emap, lambda kv: f"({expr_term(kv[0])}, {slit(kv[1])})")}))')
+        ctx.count('flatten_model', [str(tup)], len(set(map(str, tup))) >= 2 and any(isinstance(x, sympy.Basic) and x.args for x in tup),
+                  sample=dict(input=str(tup), flattened=str(flat), expression_map=str(dict(em))))
+    header = ('From Coq Require Import String ZArith QArith List Bool.\nFrom VF Require Import Base.Harness Codec.Resolver Codec.ResolverHarness.\n'
+              'Import ListNotations.\nLocal Open Scope nat_scope.\n')
+    text = header + 'Definition cases : list (list (expr * string) * list expr * (list expr * fmap)) := [\n' + ';\n'.join(terms) + '].\n'
+    text += 'Eval vm_compute in failing (fun c => match c with (tbl, es, got) => check_flatten tbl es got end) cases.\n'
+    for idx in coq.parse_nat_list(coq.parse_evals(coq.coq_eval(f'c10_flatten_{ctx.seed}', text))[0]):
+        tup, flat, em = rows[idx]
+        ctx.mark_broken('correspondence:flatten', f'cirq.flatten({tup!r}) = {flat!r}, {em!r} differs from the model')
+        # property level: distinct expressions must get distinct symbols, equal ones the same, numbers stay; values preserved
+        bad = None
+        seen = {}
+        for x, y in zip(tup, flat):
+            if not isinstance(x, sympy.Basic):
+                if x != y:
+                    bad = f'number {x} became {y}'
+                continue
+            if not isinstance(y, sympy.Symbol):
+                bad = f'{x} was not replaced by a symbol ({y})'
+            elif seen.setdefault(y, x) != x:
+                bad = f'{x} and {seen[y]} share the symbol {y}'
+        env = {s: float(dyadic(rng)) for s in {z.name for x in tup if isinstance(x, sympy.Basic) for z in x.free_symbols}}
+        if bad is None and env:
+            new = em.transform_params(env)
+            for x, y in zip(tup, flat):
+                if isinstance(x, sympy.Basic) and not values_agree(cirq.resolve_parameters(y, new), cirq.resolve_parameters(x, env), [{}]):
+                    bad = f'{x} has value {cirq.resolve_parameters(x, env)} at {env}, its flattened form {y} has {cirq.resolve_parameters(y, new)}'
+        if bad:
+            ctx.violation('flatten:tuple', f'cirq.flatten({tup!r}): {bad}', dict(kind='flatten_tuple', exprs=[sympy_srepr(x) if isinstance(x, sympy.Basic) else x for x in tup]))
+
+
 def run(ctx):
     cirq = env.import_cirq()
     ctx.rule = ('sweeps: random trees over Unit/Points/Linspace/ListSweep leaves and Product/Zip/ZipLongest/Concat nodes, nesting <= 3, empty and '
@@ -1682,6 +1858,8 @@ def run(ctx):
     quick = ctx.tier == 'quick'
     sweep_stream(ctx, cirq, 400 if quick else 4000)
     resolver_stream(ctx, cirq, 300 if quick else 3000)
+    compose_stream(ctx, cirq, 120 if quick else 1500)
+    flatten_model_stream(ctx, cirq, 120 if quick else 1500)
     float_stream(ctx, cirq, 150 if quick else 2000)
     gate_stream(ctx, cirq, 120 if quick else 1500)
     circuit_stream(ctx, cirq, 60 if quick else 800)
